@@ -67,6 +67,37 @@ fn overflow_history(kind: usize, delta: f64, backlog: usize) -> (u64, Option<(St
     (120, None)
 }
 
+/// One sample of enormous weight at the value 0 (it contributes nothing to the sum) and unit-weight samples elsewhere: the
+/// unit weights are below one ulp of the total weight (2^60 + k rounds to 2^60), but their contribution to sum() is not.
+fn heavy_zero_history(kind: usize, delta: f64, backlog: usize, sign: f64) -> (u64, Option<(String, String)>) {
+    let mut d = td::Dg::new(kind, delta, backlog);
+    let heavy = 2f64.powi(60);
+    let mut want_sum = 0.0f64;
+    let r = mccore::panics::catch(|| d.insert_weighted(0.0, heavy));
+    if let Err(p) = r {
+        return (0, Some(("heavy atom panics".into(), format!("insert_weighted(0, 2^60) panicked: {}", p))));
+    }
+    for i in 1..=40usize {
+        let v = sign * i as f64;
+        if let Err(p) = mccore::panics::catch(|| {
+            d.insert(v);
+            if i % 5 == 0 {
+                let _ = d.quantile(0.5);
+            }
+        }) {
+            return (i as u64, Some(("heavy atom panics".into(), format!("insert({}) after insert_weighted(0, 2^60) panicked: {}", v, p))));
+        }
+        want_sum += v;
+        let c = d.clone();
+        let (sm, cnt, lo, hi) = (c.sum(), c.count(), c.min(), c.max());
+        let (wlo, whi) = if sign > 0.0 { (0.0, v) } else { (v, 0.0) };
+        if (sm - want_sum).abs() > 1e-9 * want_sum.abs() || (cnt - (heavy + i as f64)).abs() > 1e-9 * heavy || lo != wlo || hi != whi {
+            return (i as u64, Some(("heavy atom at zero".into(), format!("insert_weighted(0, 2^60) then the unit-weight values {}1 .. {}{}: sum() = {} (expected {}), count() = {:e}, min / max = {} / {}", if sign > 0.0 { "" } else { "-" }, if sign > 0.0 { "" } else { "-" }, i, sm, want_sum, cnt, lo, hi))));
+        }
+    }
+    (40, None)
+}
+
 fn main() {
     let args = parse_args();
     let mut run = Runner::new("C16", &args.tier, "model_checking");
@@ -104,6 +135,14 @@ fn main() {
         nodes += n;
         if let Some((sig, msg)) = bad {
             run.violation(Viol { property: "C16".into(), signature: format!("tdigest long history {}", sig), message: format!("{}(delta={}) backlog={} weights x{:e}: {}", td::KIND_NAMES[*k], d, b, ws, msg), replay: json!({"structure": "TDigest", "scale_function": td::KIND_NAMES[*k], "delta": d, "max_backlog_size": b, "every_weight_multiplied_by": ws, "history": "i-th op: insert_weighted(v_i, w_i), v_i = ((i*7919)%10007 - 5000)*0.37, w_i = [1, 0.5, 3, 1e-3, 250, 0][i%6]; read every 113 ops; zero weights skipped by the library"}) });
+        }
+    }
+    let hjobs: Vec<(usize, f64, usize, f64)> = (0..4).flat_map(|k| [(k, 1.1, 0usize, 1.0), (k, 2.0, 0, -1.0), (k, 5.0, 3, 1.0), (k, 20.0, 0, -1.0), (k, 20.0, 7, 1.0)]).collect();
+    let hres = par_map(&hjobs, n_threads(), |&(k, d, b, sg)| heavy_zero_history(k, d, b, sg));
+    for ((k, d, b, sg), (n, bad)) in hjobs.iter().zip(hres) {
+        nodes += n;
+        if let Some((sig, msg)) = bad {
+            run.violation(Viol { property: "C16".into(), signature: format!("tdigest {}", sig), message: format!("{}(delta={}) backlog={}: {}", td::KIND_NAMES[*k], d, b, msg), replay: json!({"structure": "TDigest", "scale_function": td::KIND_NAMES[*k], "delta": d, "max_backlog_size": b, "history": format!("insert_weighted(0, 2^60), then insert({}i) for i = 1..40, quantile(0.5) every 5 inserts", if *sg > 0.0 { "" } else { "-" })}) });
         }
     }
     let ojobs: Vec<(usize, f64, usize)> = (0..4).flat_map(|k| [(k, 2.0, 0usize), (k, 20.0, 3), (k, 100.0, 10)]).collect();
